@@ -190,6 +190,98 @@ namespace {
       rep.count("traces");
    }
 
+   // ---- access patterns on growing sequences -------------------------------------------------------------------
+   // Alphabet: add a member | read position 0 | read the last | read the middle | read position size() (must be refused) |
+   // read position size()+1 (must be refused) | iterate from begin() to end().  EVERY history up to the depth on every kind
+   // of growing sequence, against a vector of the addresses returned by the additions: a read returns the member at that
+   // index or is refused with logic_error -- whatever was read or refused before.
+   template<class T, class Add, class Get>
+   void sequence_histories(const std::string& kind, int depth, Add make_container_and_adder, Get)
+   {
+      constexpr int NOPS = 7;
+      static const char* const opn[] = { "add", "read[0]", "read[last]", "read[mid]", "read[size]", "read[size+1]", "iterate" };
+      for (int d = 1; d <= depth; ++d) {
+         std::vector<int> h(std::size_t(d), 0);
+         while (true) {
+            opt.kick();
+            {
+               ipr::impl::Lexicon lex;
+               ipr::impl::Translation_unit unit{ lex };
+               auto [add, seq] = make_container_and_adder(lex, unit);
+               std::vector<const T*> model;
+               for (auto& m : seq()) model.push_back(&m);            // members the container starts with (a declaration is its own first member)
+               std::string text;
+               bool bad = false;
+               auto report = [&](const std::string& what, const char* key) {
+                  std::vector<long long> ops(h.begin(), h.end());
+                  rep.violation("C14:sequence-history:" + kind + ":" + key, d, what + " [" + kind + ": " + text + "]", vf::JObj{}.str("pass", "C14").str("family", "sequence-history").str("kind", kind).raw("ops", vf::jarr(ops)).done());
+                  bad = true;
+               };
+               for (int i = 0; i < d and not bad; ++i) {
+                  text += std::string(opn[h[std::size_t(i)]]) + " ";
+                  current = "sequence history on " + kind + ": " + text;
+                  rep.count("transitions");
+                  const ipr::Sequence<T>& s = seq();
+                  const std::size_t n = model.size();
+                  auto read = [&](std::size_t idx) {
+                     const T* got = nullptr;
+                     bool refused = false;
+                     try { got = &*s.position(idx); }
+                     catch (const std::logic_error&) { refused = true; }
+                     catch (...) { report("reading position " + std::to_string(idx) + " of " + std::to_string(n) + " throws something that is not a logic_error", "wrong-exception"); return; }
+                     if (idx < n) { if (refused) report("position " + std::to_string(idx) + " of " + std::to_string(n) + " members is refused", "valid-position-refused"); else if (got != model[idx]) report("position " + std::to_string(idx) + " of " + std::to_string(n) + " members is not the member added at that index", "wrong-member"); }
+                     else if (not refused) report("position " + std::to_string(idx) + " of " + std::to_string(n) + " members is answered", "out-of-range-answered");
+                  };
+                  switch (h[std::size_t(i)]) {
+                  case 0: model.push_back(add(int(n))); if (s.size() != n + 1) report("size() is " + std::to_string(s.size()) + " after " + std::to_string(n + 1) + " additions", "size"); break;
+                  case 1: read(0); break;
+                  case 2: read(n ? n - 1 : 0); break;
+                  case 3: read(n / 2); break;
+                  case 4: read(n); break;
+                  case 5: read(n + 1); break;
+                  case 6: { std::size_t k = 0; try { for (auto& m : s) { if (k >= n or &m != model[k]) { report("iteration yields another member at #" + std::to_string(k), "wrong-member"); break; } ++k; } } catch (const std::exception& e) { report(std::string("iteration over ") + std::to_string(n) + " members throws: " + e.what(), "valid-position-refused"); } if (not bad and k != n) report("iteration visits " + std::to_string(k) + " of " + std::to_string(n) + " members", "size"); break; }
+                  }
+                  rep.count("states");
+               }
+               rep.count("traces");
+            }
+            int i = d - 1;
+            while (i >= 0 and ++h[std::size_t(i)] == NOPS) h[std::size_t(i--)] = 0;
+            if (i < 0) break;
+         }
+      }
+   }
+
+   void all_sequence_histories(int depth, int shard_job)
+   {
+      namespace I = ipr::impl;
+      auto name = [](I::Lexicon& lex, int i) -> const ipr::Name& { return lex.get_identifier(std::u8string(u8"m") + char8_t('a' + i % 26) + char8_t('a' + i / 26 % 26)); };
+      int job = 0;
+      auto mine = [&] { return (job++ % 11) == shard_job % 11; };
+      if (mine()) sequence_histories<ipr::Parameter>("parameter-list", depth, [&](I::Lexicon& lex, I::Translation_unit& u) { auto* m = lex.make_mapping(*u.global_region(), ipr::Mapping_level{ 1 });
+         return std::pair{ std::function<const ipr::Parameter*(int)>([m, &lex, name](int i) { return m->param(name(lex, i), lex.int_type()); }), std::function<const ipr::Sequence<ipr::Parameter>&()>([m]() -> const ipr::Sequence<ipr::Parameter>& { return static_cast<const ipr::Mapping&>(*m).parameters().elements(); }) }; }, 0);
+      if (mine()) sequence_histories<ipr::Base_type>("base-list", depth, [&](I::Lexicon& lex, I::Translation_unit& u) { auto* c = lex.make_class(*u.global_region());
+         return std::pair{ std::function<const ipr::Base_type*(int)>([c, &lex](int i) { return c->declare_base(i % 2 ? lex.int_type() : lex.char_type()); }), std::function<const ipr::Sequence<ipr::Base_type>&()>([c]() -> const ipr::Sequence<ipr::Base_type>& { return static_cast<const ipr::Class&>(*c).bases(); }) }; }, 0);
+      if (mine()) sequence_histories<ipr::Handler>("handler-list", depth, [&](I::Lexicon& lex, I::Translation_unit& u) { auto* b = lex.make_block(*u.global_region());
+         return std::pair{ std::function<const ipr::Handler*(int)>([b, &lex, name](int i) { return b->new_handler(name(lex, i), lex.int_type()); }), std::function<const ipr::Sequence<ipr::Handler>&()>([b]() -> const ipr::Sequence<ipr::Handler>& { return static_cast<const ipr::Block&>(*b).handlers(); }) }; }, 0);
+      if (mine()) sequence_histories<ipr::Token>("pragma-tokens", depth, [&](I::Lexicon& lex, I::Translation_unit&) { auto* p = lex.make_pragma();
+         return std::pair{ std::function<const ipr::Token*(int)>([p, &lex](int i) { return static_cast<const ipr::Token*>(p->tokens.push_back(lex.get_string(u8"t"), ipr::Source_location{ }, ipr::TokenValue(i), ipr::TokenCategory{ })); }), std::function<const ipr::Sequence<ipr::Token>&()>([p]() -> const ipr::Sequence<ipr::Token>& { return static_cast<const ipr::Pragma&>(*p).operand(); }) }; }, 0);
+      if (mine()) sequence_histories<ipr::Capture>("captures", depth, [&](I::Lexicon& lex, I::Translation_unit& u) { auto* cl = lex.make_closure(*u.global_region()); auto* v = u.global_region()->declare_var(lex.get_identifier(u8"v"), lex.int_type());
+         return std::pair{ std::function<const ipr::Capture*(int)>([cl, v](int i) { return static_cast<const ipr::Capture*>(cl->captures.push_back(*v, i % 2 ? ipr::Binding_mode::Copy : ipr::Binding_mode::Reference)); }), std::function<const ipr::Sequence<ipr::Capture>&()>([cl]() -> const ipr::Sequence<ipr::Capture>& { return static_cast<const ipr::Closure&>(*cl).members(); }) }; }, 0);
+      if (mine()) sequence_histories<ipr::Using_declaration::Designator>("using-designators", depth, [&](I::Lexicon& lex, I::Translation_unit&) { auto* ud = lex.make_using_declaration(); auto* sr = lex.make_scope_ref(*lex.make_id_expr(lex.get_identifier(u8"a")), *lex.make_id_expr(lex.get_identifier(u8"b")));
+         return std::pair{ std::function<const ipr::Using_declaration::Designator*(int)>([ud, sr](int) { return static_cast<const ipr::Using_declaration::Designator*>(ud->seq.push_back(*sr, ipr::Using_declaration::Designator::Mode::Normal)); }), std::function<const ipr::Sequence<ipr::Using_declaration::Designator>&()>([ud]() -> const ipr::Sequence<ipr::Using_declaration::Designator>& { return static_cast<const ipr::Using_declaration&>(*ud).designators(); }) }; }, 0);
+      if (mine()) sequence_histories<ipr::Enumerator>("enumerators", depth, [&](I::Lexicon& lex, I::Translation_unit& u) { auto* e = lex.make_enum(*u.global_region(), ipr::Enum::Kind::Scoped);
+         return std::pair{ std::function<const ipr::Enumerator*(int)>([e, &lex, name](int i) { return e->add_member(name(lex, i)); }), std::function<const ipr::Sequence<ipr::Enumerator>&()>([e]() -> const ipr::Sequence<ipr::Enumerator>& { return static_cast<const ipr::Enum&>(*e).members(); }) }; }, 0);
+      if (mine()) sequence_histories<ipr::Expr>("expression-list", depth, [&](I::Lexicon& lex, I::Translation_unit&) { auto* x = lex.make_expr_list();
+         return std::pair{ std::function<const ipr::Expr*(int)>([x, &lex](int) { const ipr::Expr* e = lex.make_literal(lex.int_type(), u8"1"); x->push_back(e); return e; }), std::function<const ipr::Sequence<ipr::Expr>&()>([x]() -> const ipr::Sequence<ipr::Expr>& { return static_cast<const ipr::Expr_list&>(*x).elements(); }) }; }, 0);
+      if (mine()) sequence_histories<ipr::Decl>("scope-members", depth, [&](I::Lexicon& lex, I::Translation_unit& u) { auto* r = u.global_region()->make_subregion();
+         return std::pair{ std::function<const ipr::Decl*(int)>([r, &lex, name](int i) { return r->declare_var(name(lex, i), lex.int_type()); }), std::function<const ipr::Sequence<ipr::Decl>&()>([r]() -> const ipr::Sequence<ipr::Decl>& { return static_cast<const ipr::Region&>(*r).bindings().elements(); }) }; }, 0);
+      if (mine()) sequence_histories<ipr::Decl>("redeclaration-set", depth, [&](I::Lexicon& lex, I::Translation_unit& u) { auto* r = u.global_region()->make_subregion(); auto* first = r->declare_var(lex.get_identifier(u8"x"), lex.int_type());
+         return std::pair{ std::function<const ipr::Decl*(int)>([r, &lex](int) { return static_cast<const ipr::Decl*>(r->declare_var(lex.get_identifier(u8"x"), lex.int_type())); }), std::function<const ipr::Sequence<ipr::Decl>&()>([first]() -> const ipr::Sequence<ipr::Decl>& { return static_cast<const ipr::Decl&>(*first).decl_set(); }) }; }, 0);
+      if (mine()) sequence_histories<ipr::Expr>("block-body", depth, [&](I::Lexicon& lex, I::Translation_unit& u) { auto* b = lex.make_block(*u.global_region());
+         return std::pair{ std::function<const ipr::Expr*(int)>([b, &lex](int) { const ipr::Expr* s = lex.make_break(); b->add_stmt(*s); return s; }), std::function<const ipr::Sequence<ipr::Expr>&()>([b]() -> const ipr::Sequence<ipr::Expr>& { return static_cast<const ipr::Block&>(*b).body(); }) }; }, 0);
+   }
+
    void util_string()
    {
       ipr::util::string::arena arena;
@@ -227,6 +319,7 @@ int main(int argc, char** argv)
       table(rot);
       partial_states(rot);
       util_string();
+      if (vf::slurp(opt.replay).find("sequence-history") != std::string::npos) for (int k = 0; k < 11; ++k) all_sequence_histories(5, k);
       for (auto& [k, v] : rep.viols) std::printf("violated: %s  (%s)\n", k.c_str(), v.what.c_str());
       return rep.viols.empty() ? 0 : 1;
    }
@@ -236,6 +329,7 @@ int main(int argc, char** argv)
       if (opt.mine(job++)) table(rot);
       if (opt.mine(job++)) partial_states(rot);
    }
+   for (int k = 0; k < 11; ++k) if (opt.mine(job++)) all_sequence_histories(opt.thorough() ? 6 : 5, k);
    if (opt.shard == 0) {
       util_string();
       rep.info("space", vf::JObj{}.num("factory_rows", (long long) zoo::rows().size()).num("operand_rotations", rots).str("states_per_entry", "as built; after its row set its links; after the table was built twice")
